@@ -106,6 +106,13 @@ func (g *gen) integrity(n int) {
 			g.emit("RAWDEC 1 0 0 %s", showHex(c))
 			g.emit("CHECK 1 mi %s", showHex(key))
 		}
+		// bytes after the declared end of the message (a datagram longer than its header says): they are not covered
+		// and change nothing, under the right key and under a wrong one
+		for _, k := range []int{1, 3, 4, 8, 1 + g.r.intn(20)} {
+			g.emit("RAWDEC 1 %d 0 %s", g.r.intn(3), showHex(append(append([]byte{}, b...), g.r.bytes(k)...)))
+			g.emit("CHECK 1 mi %s", showHex(key))
+			g.emit("CHECK 1 mi %s", showHex(wk))
+		}
 		// wrong / short / long MAC values
 		for _, l := range []int{0, 1, 19, 21, 24, 40} {
 			c := append([]byte{}, b[:miOff]...)
